@@ -88,7 +88,12 @@ pub fn infer_body(base: &str, is_string: bool, orderable: bool, d: usize, op: Op
     let n = tyshape::any_nulls();
     let t = mk_type(base, d, &n);
     let bare: Operation<(), ()> = mk_op(op, (), ());
-    let inferred = vf::infer_variable_type(t.clone(), &bare);
+    let inferred_res = vf::infer_variable_type(t.clone(), &bare);
+    let inferred = match &inferred_res {
+        Ok(v) => Some(v.clone()),
+        Err(_) => None,
+    };
+    std::mem::forget(inferred_res); // error values own Strings: keep their drop glue out
     let exp_depth = expected_depth(op, d);
     let mut shape_ok = inferred.is_some() == exp_depth.is_some();
     let mut nonnull_where_required = true;
@@ -112,10 +117,11 @@ pub fn infer_body(base: &str, is_string: bool, orderable: bool, d: usize, op: Op
             LocalField { field_name: Arc::from("p"), field_type: t.clone() },
             Argument::Variable(VariableRef { variable_name: Arc::from("v"), variable_type: v.clone() }),
         );
-        accepted = vf::operand_types_valid(&full);
+        let res = vf::operand_types_valid(&full, None);
+        accepted = res.is_ok();
+        std::mem::forget(res);
         std::mem::forget(full);
     }
-    kani::cover!(true, "witness: end of harness reached");
     kani::cover!(accepted, "witness: filter accepted by the frontend");
     std::mem::forget(inferred);
     std::mem::forget(t);
@@ -147,9 +153,10 @@ pub fn tag_body(base_p: &str, base_t: &str, same_base: bool, p_is_string: bool, 
             field_type: tt,
         })),
     );
-    let accepted = vf::operand_types_valid_with_tag(&full, "t");
+    let res = vf::operand_types_valid(&full, Some("t"));
+    let accepted = res.is_ok();
+    std::mem::forget(res);
     std::mem::forget(full);
-    kani::cover!(true, "witness: end of harness reached");
     kani::cover!(accepted, "witness: filter accepted by the frontend");
     kani::cover!(!accepted, "witness: filter refused by the frontend");
     if accepted {
@@ -185,7 +192,6 @@ pub fn nopanic_body(op: Op, a: FieldValue, b: FieldValue) {
         Op::HasSubstring => f::has_substring(&a, &b),
         Op::NotHasSubstring => f::not_has_substring(&a, &b),
     };
-    kani::cover!(true, "witness: end of harness reached");
     kani::cover!(r, "witness: operator can return true");
     kani::cover!(!r, "witness: operator can return false");
     std::mem::forget(a);
@@ -195,23 +201,11 @@ pub fn nopanic_body(op: Op, a: FieldValue, b: FieldValue) {
 /// All four ordering operators (they share one dispatch macro) on one pair of shapes.
 pub fn nopanic_ordering_body(a: FieldValue, b: FieldValue) {
     let r = (f::less_than(&a, &b), f::less_than_or_equal(&a, &b), f::greater_than(&a, &b), f::greater_than_or_equal(&a, &b));
-    kani::cover!(true, "witness: end of harness reached");
     std::mem::forget(a);
     std::mem::forget(b);
 }
 
-macro_rules! h {
-    ($name:ident, $unw:expr, $body:ident ( $($arg:expr),* )) => {
-        #[kani::proof]
-        #[kani::unwind($unw)]
-        #[kani::stub(std::fmt::format, crate::stub_format)]
-        pub fn $name() {
-            $body($($arg),*);
-        }
-    };
-}
-
-pub mod quick {
+pub mod l3 {
     use super::*;
 
     /// L3: fold-count conversion.
@@ -222,7 +216,7 @@ pub mod quick {
         let v = FieldValue::Int64(i);
         let r = x::usize_from_field_value(&v);
         kani::cover!(i < 0, "witness: negative count argument");
-        kani::cover!(true, "witness: end of harness reached");
+            kani::cover!(true, "witness: end of harness reached");
         assert!(r == Some(if i < 0 { 0 } else { i as usize }), "negative clamps to 0, otherwise exact");
     }
 
@@ -233,7 +227,7 @@ pub mod quick {
         let v = FieldValue::Uint64(u);
         let r = x::usize_from_field_value(&v);
         kani::cover!(u > i64::MAX as u64, "witness: count argument beyond i64");
-        kani::cover!(true, "witness: end of harness reached");
+            kani::cover!(true, "witness: end of harness reached");
         assert!(r == Some(u as usize), "exact");
     }
 
@@ -241,7 +235,7 @@ pub mod quick {
     #[kani::unwind(2)]
     pub fn usize_from_null() {
         let r = x::usize_from_field_value(&FieldValue::Null);
-        kani::cover!(true, "witness: end of harness reached");
+            kani::cover!(true, "witness: end of harness reached");
         assert!(r.is_none());
     }
 }
